@@ -544,6 +544,12 @@ func (oc *objectCache) processExpr(info *types.Info, pkgPath string, expr ast.Ex
 	if obj := qualifiedIdentObject(info, expr); obj != nil {
 		item, errs := oc.get(obj)
 		return item, mapErrors(errs, func(err error) error {
+			if w, ok := err.(*wireErr); ok && obj.Pkg() != nil && obj.Pkg().Path() != pkgPath {
+				// The error lies in another package, possibly not one of the
+				// user's (a function of a dependency that is no provider):
+				// report it where this package refers to it.
+				return &wireErr{error: w, position: exprPos}
+			}
 			return notePosition(exprPos, err)
 		})
 	}
